@@ -242,4 +242,15 @@ theorem resolve_table (b r c s p : Bool)
       else if b = true then Target.builtin else Target.unbound) := by
   cases b <;> cases r <;> cases c <;> cases s <;> cases p <;> simp_all
 
+/-! ### `ref_value` with the extracted branch order and literal test -/
+
+/-- the chain of `ParentTranslator.ref_value` as it stands in exporter.py -/
+theorem refValue_generated (v : PyVal) :
+    refValue Generated.exportLiteralTest Generated.exportLiteralTypes v Generated.exportRefValueOrder =
+      if v.iface then (if v.valid then .path else .noneLit)
+      else if Generated.exportLiteralTypes.contains v.ty then .literal
+      else if v.sysmod then .importModule
+      else if v.iospec then .ioData else .pickle := by
+  simp [refValue, isLiteral, Generated.exportRefValueOrder, Generated.exportLiteralTest]
+
 end MxModel.Export
